@@ -106,6 +106,7 @@ type MetricQuery struct {
 	AggGrp   *Grouping     `json:"agg_grp,omitempty"`
 	AggCmp   *Cmp          `json:"agg_cmp,omitempty"`
 	TopK     int           `json:"topk,omitempty"`
+	TopCmp   *Cmp          `json:"top_cmp,omitempty"` // threshold written after topk/bottomk: applies to what the cut left
 	Bottom   bool          `json:"bottom,omitempty"`
 	Quantile string        `json:"quantile,omitempty"`
 }
@@ -283,6 +284,9 @@ func (m MetricQuery) String() string {
 			fn = "bottomk"
 		}
 		out = fmt.Sprintf("%s(%d, %s)", fn, m.TopK, out)
+		if m.TopCmp != nil {
+			out += " " + m.TopCmp.Op + " " + m.TopCmp.Val
+		}
 	}
 	return out
 }
@@ -349,6 +353,9 @@ func (r Request) Shape() string {
 				p += "/bottomk"
 			} else {
 				p += "/topk"
+			}
+			if m.TopCmp != nil {
+				p += "+cmp"
 			}
 		}
 		parts = append(parts, p)
